@@ -257,9 +257,19 @@ def gen(rng, tier, idx):
 
     def one_word_tree(w):
         r = rng.random()
-        if r < 0.7:
+        if r < 0.6:
             return ("a", new_term([w]))
-        gid = new_term([w] if r < 0.85 else [])          # the pattern itself in or out of the vocabulary
+        if r < 0.75:
+            # a phrase of the word and a stop word: search_phrase with ONE word id (single-operand intersection)
+            parts = [new_term([w]), new_term([])]
+            if rng.random() < 0.5:
+                parts.reverse()
+            lexn[0] += 1
+            pid = lexn[0]
+            terms[pid] = [w]
+            cmds.append(["lexp", pid, "_".join("t%d" % i for i in parts), w])
+            return ("p", pid, parts)
+        gid = new_term([w] if r < 0.9 else [])          # the pattern itself in or out of the vocabulary
         cmds.append(["lex", "g", gid, w])
         return ("g", gid)
 
@@ -462,15 +472,17 @@ def features(case, outs):
         if op in ("index", "reindex", "unindex", "reset"):
             read = {}
         if op in ("apply", "applyb", "applysort"):
-            toks = c[3:] if op == "applysort" else c[1:]
-            if toks[0] in ("a", "g") and len(toks) == 2:
-                w = (terms if toks[0] == "a" else globs).get(toks[1], [])
+            toks = [t for t in (c[3:] if op == "applysort" else c[1:]) if not str(t).startswith("w:")]
+            if toks[0] in ("a", "g", "p") and len(toks) == 2:
+                w = (globs if toks[0] == "g" else terms).get(toks[1], [])
                 df = {x: sum(1 for ws in table.values() if x in ws) for x in set(w)}
                 if len(w) == 1 and df[w[0]]:
                     tree = "stored-tree" if df[w[0]] > cutoff else "dict"
                     read[w[0]] = read.get(w[0], 0) + 1
                     if read[w[0]] >= 2:
                         f.append("repeat:one-word-query-again:%s:%s" % (tree, cfg["kind"]))
+                        f.append("repeat:one-word-%s-again:%s:%s" % ({"a": "atom", "g": "glob", "p": "phrase"}[toks[0]],
+                                                                     tree, cfg["kind"]))
         if op in ("index", "lex", "lexp"):
             continue
         f.append("op:" + op)
